@@ -458,6 +458,9 @@ def fn_text(fn, indent="", in_impl=False):
         fps += p.body_fps(i, fn.name)
     lines = []
     lines.append(f"let __f = sim::enter({fn.fn_id}, {recv}, &[{', '.join(fps)}]);")
+    # function-local state: there is exactly one of it, inside the ORIGINAL function
+    lines.append("static __LOCAL: std::sync::atomic::AtomicU8 = std::sync::atomic::AtomicU8::new(0);")
+    lines.append("sim::mark(&__f, &__LOCAL);")
     lines.append("sim::user_alloc(&__f);")
     if fn.big:
         # a 4 KiB buffer kept alive across the awaits: the function's own future is large
@@ -742,6 +745,12 @@ module("mnd", "Mnd", [
     Fn("mn0", ("nodeps", []), []),
     Fn("mn0b", ("nodeps", []), []),
 ], opts="no_deps")
+# restricted-visibility fns BEFORE plain `pub` ones, all with interchangeable signatures
+_VIS = ["pub(crate)", "pub", "pub(in crate)", "pub", "pub(crate)", "pub"]
+module("mvis", "Mvis", [Fn(f"mv_{n}", ("impl", ["F0"]), ["u64", "u64"], vis=v) for n, v in zip("cadbef", _VIS)])
+module("amvis", "Amvis", [Fn(f"amv_{n}", ("impl", ["Af0"]), ["u64", "u64"], is_async=True, vis=v) for n, v in zip("cadbef", _VIS)])
+module("mvisnd", "Mvisnd", [Fn(f"mvn_{n}", ("nodeps", []), ["u64", "u64"], vis=v) for n, v in zip("badc", _VIS)], opts="no_deps")
+module("mvisf", "Mvisf", [Fn(f"mvf_{n}", ("impl", ["F0"]), ["u64", "u64"], vis=v, calls=["f0"]) for n, v in zip("zyxw", ["pub(crate)", "pub(crate)", "pub", "pub"])], fillers=(1, 2))
 module("mndh", "Mndh", [
     Fn("mn_bool", ("nodeps", []), [], ret="boolr"),
     Fn("mn_i32", ("nodeps", []), [], ret="i32r"),
@@ -1193,6 +1202,13 @@ trait_section("ARefDual", "ref", [
     Fn("ardu1", SELF, ["u64", "u64"], is_async=True),
     Fn("ardu_lt", SELF, ["refa", "u64"], ret="refarg", is_async=True),
 ], async_trait=True, supers=": Sync + 'static", dual=True)
+trait_section("PlainFut", "self", [
+    Fn("pf_drop", SELF, ["u64", "u64"], ret="implfut_drop"),
+    Fn("pf_poll", SELF, ["u64", "u64"], ret="implfut"),
+    Fn("pf_plain", SELF, ["u64", "u64"]),
+    Fn("pf_drop0", SELF, [], ret="implfut_drop"),
+    Fn("apf_async", SELF, ["u64", "u64"], is_async=True),
+])
 trait_section("PlainSame", "self", [Fn("psame", SELF, ["u64", "same:u64"]), Fn("psame3", SELF, ["u64", "u64", "same:u64"])])
 
 trait_section("Plain24", "self", [Fn(f"p24_{i}", SELF, ["u64", "u64"]) for i in range(24)])
@@ -1237,11 +1253,12 @@ bundle_traits.append(("SlotRef", False))
 IMPL_FILLERS = ["    pub const SPAN: u32 = 1;\n", "    pub const NAME: &'static str = \"x\";\n", "    #[allow(dead_code)]\n    const HIDDEN: u8 = 2;\n"]
 
 
-def inversion(trait, impl_trait, mode, methods, delegate_ident=None, async_trait=False, path_targets=False, fillers=()):
+def inversion(trait, impl_trait, mode, methods, delegate_ident=None, async_trait=False, path_targets=False, fillers=(), dual=False, nosend=False):
     """methods: list of (decl Fn with SELF deps, impl deps form, calls);
     path_targets: the impl blocks are written for `module::Type` paths while a
     same-named decoy type with same-named inherent functions is in scope"""
-    at = "#[async_trait::async_trait]\n" if async_trait else ""
+    at = ("#[async_trait::async_trait(?Send)]\n" if nosend else "#[async_trait::async_trait]\n") if async_trait else ""
+    ns = ", ?Send" if nosend else ""
     decls = []
     het = any(d.hetero for d, _, _ in methods)
     cid = new_container()
@@ -1263,9 +1280,9 @@ def inversion(trait, impl_trait, mode, methods, delegate_ident=None, async_trait
         ALL_FNS[decl.name] = decl
         decls.append(decl)
     if mode == "static":
-        attr = f"#[entrait({impl_trait}, delegate_by = {delegate_ident})]"
+        attr = f"#[entrait({impl_trait}, delegate_by = {delegate_ident}{ns})]"
     else:
-        attr = f"#[entrait({impl_trait}, delegate_by = ref)]"
+        attr = f"#[entrait({impl_trait}, delegate_by = ref{ns})]"
     text = f"{cfg}{attr}\n{at}pub trait {trait} {{\n" + "".join(decl_text(d) for d in decls) + "}\n"
     targets = [f"{trait}TargetA", f"{trait}TargetB"]
     if path_targets:
@@ -1282,6 +1299,22 @@ def inversion(trait, impl_trait, mode, methods, delegate_ident=None, async_trait
             text += (f"    pub {asy}fn {decl.name}{g}({', '.join(ps)}) -> u64 {{\n        let __f = sim::enter(60001, sim::addr(deps), &[]);\n"
                      f"        sim::exit(__f, &[])\n    }}\n")
         text += "}\n"
+    if dual:
+        # a decoy implementation handed out through the OTHER `dyn` flavour (with `+ Sync` where
+        # the generated code must ask for the plain object, and the other way round):
+        # reaching it (function id 60005) is a mis-routing
+        decoy = f"{trait}Decoy"
+        iattr = "#[entrait]" if mode == "static" else "#[entrait(ref)]"
+        text += f"pub struct {decoy}(pub u64);\n{cfg}{iattr}\n{at}impl {impl_trait} for {decoy} {{\n"
+        for decl, deps, calls in methods:
+            g = method_generics(decl)
+            g = (g[:-1] + ", D>") if g else "<D>"
+            ps = ["deps: &D"] + [p.sig(i, decl.name) for i, p in enumerate(decl.params)]
+            asy = "async " if decl.is_async else ""
+            text += (f"    pub {asy}fn {decl.name}{g}({', '.join(ps)}){RET_TEXT[decl.ret]} {{\n        let __f = sim::enter(60005, sim::addr(deps), &[]);\n"
+                     + "\n".join("        " + l for l in ret_tail(decl, "")) + "\n    }\n")
+        text += "}\n"
+        APP_FIELDS_TYPED.append((f"decoy_{trait.lower()}", decoy))
     for which, target in enumerate(targets):
         if not path_targets:
             text += f"pub struct {target}(pub u64);\n"
@@ -1305,6 +1338,11 @@ def inversion(trait, impl_trait, mode, methods, delegate_ident=None, async_trait
             text += (f"{cfg}impl AsRef<dyn {impl_trait}<Self>{sync}> for App<{which}> {{\n"
                      f"    fn as_ref(&self) -> &(dyn {impl_trait}<Self>{sync} + 'static) {{\n"
                      f"        sim::lookup({k});\n        &self.{field}\n    }}\n}}\n")
+            if dual:
+                osync = "" if sync else " + Sync"
+                text += (f"{cfg}impl AsRef<dyn {impl_trait}<Self>{osync}> for App<{which}> {{\n"
+                         f"    fn as_ref(&self) -> &(dyn {impl_trait}<Self>{osync} + 'static) {{\n"
+                         f"        &self.decoy_{trait.lower()}\n    }}\n}}\n")
     for d in decls:
         d.trait_call = f"app.{d.name}({{args}})"
         d.direct_call = (f"{trait.lower()}_p{{ab}}::{trait}Tgt::{d.name}(app, {{args}})" if path_targets
@@ -1380,6 +1418,34 @@ inversion("ADynInv", "ADynInvImpl", "dyn", [
 ], async_trait=True)
 
 
+inversion("InvFut", "InvFutImpl", "static", [
+    (Fn("if_drop", SELF, ["u64", "u64"], ret="implfut_drop"), ("impl", ["F0"]), ["f0"]),
+    (Fn("if_poll", SELF, ["u64", "u64"], ret="implfut"), ("any", []), []),
+    (Fn("if_plain", SELF, ["u64", "u64"]), ("any", []), []),
+], delegate_ident="DelegateInvFut")
+inversion("DynInvDual", "DynInvDualImpl", "dyn", [
+    (Fn("dd1", SELF, ["u64", "u64"]), ("impl", ["F0"]), ["f0"]),
+    (Fn("dd2", SELF, ["u64", "u64"]), ("any", []), []),
+    (Fn("dd_unit", SELF, ["u64"], ret="unit"), ("any", []), []),
+], dual=True)
+inversion("ADynInvDual", "ADynInvDualImpl", "dyn", [
+    (Fn("add1", SELF, ["u64", "u64"], is_async=True), ("impl", ["Af0"]), ["af0"]),
+    (Fn("add2", SELF, ["u64", "u64"], is_async=True), ("any", []), []),
+    (Fn("add_sync", SELF, ["u64", "u64"]), ("any", []), []),
+], async_trait=True, dual=True)
+inversion("NsDynInvDual", "NsDynInvDualImpl", "dyn", [
+    (Fn("nsd1", SELF, ["u64", "u64"], is_async=True), ("impl", ["Af0"]), ["af0"]),
+    (Fn("nsd2", SELF, ["u64", "u64"], is_async=True), ("any", []), []),
+    (Fn("nsd_sync", SELF, ["u64", "u64"]), ("any", []), []),
+], async_trait=True, dual=True, nosend=True)
+inversion("NsDynInv", "NsDynInvImpl", "dyn", [
+    (Fn("ns1", SELF, ["u64", "u64"], is_async=True), ("any", []), []),
+    (Fn("ns_unit", SELF, ["u64", "u64"], ret="unit", is_async=True), ("impl", ["Af0"]), ["af0"]),
+], async_trait=True, nosend=True)
+inversion("NsInv", "NsInvImpl", "static", [
+    (Fn("nsi1", SELF, ["u64", "u64"], is_async=True), ("impl", ["Af0"]), ["af0"]),
+    (Fn("nsi2", SELF, ["u64", "u64"], is_async=True), ("any", []), []),
+], delegate_ident="DelegateNsInv", async_trait=True, nosend=True)
 inversion("InvK", "InvKImpl", "static",
           [(Fn(f"ik_{r}", SELF, ["u64", "u64"], ret=r), ("impl", ["F0"]), ["f0"]) for r in HOMOG_RETS]
           + [(Fn(f"aik_{r}", SELF, ["u64", "u64"], ret=r, is_async=True), ("impl", ["Af0"]), ["af0"]) for r in HOMOG_RETS]
@@ -1514,6 +1580,22 @@ for f in umn_fns:
     f.section = "unmock"
     UNMOCK.append(f)
 unmock_traits.append(("Umn", False))
+
+
+def umodule(name, trait, fns, nodeps=False, fillers=()):
+    module(name, trait, fns, opts=("no_deps, " if nodeps else "") + f"mock_api = {trait}Mock, export", props=("C01", "C11"), fillers=fillers)
+    for f in fns:
+        f.section = "unmock"
+        UNMOCK.append(f)
+    unmock_traits.append((trait, False))
+
+
+# declaration order differs from name order (the un-mock list is matched to methods by position)
+umodule("umz", "Umz", [Fn(f"umz_{n}", ("impl", ["U0"]), ["u64", "u64"], calls=["u0"]) for n in "dbca"])
+umodule("umzn", "Umzn", [Fn(f"umzn_{n}", ("nodeps", []), ["u64", "u64"]) for n in "cab"], nodeps=True)
+umodule("aumz", "Aumz", [Fn(f"aumz_{n}", ("impl", ["Au0"]), ["u64", "u64"], is_async=True, calls=["au0"]) for n in "ba"])
+umodule("umzv", "Umzv", [Fn(f"umzv_{n}", ("impl", ["U0"]), ["u64", "u64"], vis=v) for n, v in zip("cadb", ["pub(crate)", "pub", "pub(in crate)", "pub"])])
+umodule("umzf", "Umzf", [Fn(f"umzf_{n}", ("nodeps", []), ["u64", "u64"]) for n in "zxy"], nodeps=True, fillers=(0, 1))
 
 
 # --------------------------------------------------------------------------
